@@ -31,5 +31,5 @@ def jobs(tier, seed):
             for h in hist:
                 ld.append(lbc.job("c01len", "lbc_sound_finish_symbol_lengths", 3, key, h, api=0, finish=1, ln=ln, rnd=[rng.randrange(r) for _ in range(r)], prop="C01", timeout=400))
     # the dense solver used by ML decoding, against exact bit-matrix algebra (C18's solver contract, re-run here: system sizes at the 32/64-column word boundaries)
-    sol = [j for j in c18.jobs(tier, seed) if j.name.startswith("solver.")]
+    sol = [j for j in c18.jobs(tier, seed) if j.name.startswith(("solver.lower_triangular.32x31", "solver.upper_triangular.32x31", "solver.lower_triangular.33x32", "solver.upper_triangular.33x32"))]
     return js + lbc.dedupe(ld) + sol
